@@ -46,8 +46,7 @@ func Generate(seed uint64, n int, tier, corpusDir string, shard int, out *kit.Ou
 		{Init: -1, Prog: []string{"put:1"}, Readers: [][]string{{"get"}, {"ttlget"}, {"get", "ttlget"}}},
 		{Init: 0, Prog: []string{"put:1", "put:2", "put:3"}, Readers: [][]string{{"ttlget"}, {"get", "get"}}},
 		{Init: 5, Prog: []string{"put:6"}, Readers: [][]string{{"ttlget", "get"}, {"get"}, {"ttlget"}}},
-		// programs with a delete: the stale re-fill after a delete (known finding F8b) shows in some of
-		// their schedules; anything else that goes wrong around CompareAndDelete shows next to it
+		// programs with a delete (the stale re-fill after a delete was finding F8b, repaired)
 		{Init: 0, Prog: []string{"put:1", "del"}, Readers: [][]string{{"get", "get"}, {"get"}}},
 		{Init: 3, Prog: []string{"del", "ins:4"}, Readers: [][]string{{"get", "get"}, {"ttlget", "get"}}},
 	}
